@@ -193,7 +193,7 @@ fn rust_fake_b() -> u32 {
 #[derive(Clone, Debug)]
 enum Op {
     New,
-    /// kind: 0 raw, 1 unchecked, 2 closure, 3 fake!, 4 rust fn via func!
+    /// kind: 0 raw, 1 unchecked, 2 closure, 3 fake!, 4 rust fn via func!, 5 fake! with an expectation that stays unmet
     Exec { kind: u8, t: usize, f: usize },
     Bool { t: usize, v: bool },
     Drop,
@@ -219,7 +219,7 @@ fn gen_history(r: &mut Rng, ntargets: usize, nfakes: usize, thorough: bool) -> V
             if r.chance(1, 5) {
                 ops.push(Op::Bool { t, v: r.chance(1, 2) });
             } else {
-                ops.push(Op::Exec { kind: r.below(5) as u8, t, f: r.below(nfakes as u64) as usize });
+                ops.push(Op::Exec { kind: if r.chance(1, 8) { 5 } else { r.below(5) as u8 }, t, f: r.below(nfakes as u64) as usize });
             }
         }
         ops.push(if r.chance(1, 4) { Op::DropByPanic } else { Op::Drop });
@@ -271,6 +271,7 @@ fn run_history(out: &mut impl Write, ctx: &mut Ctx, fakes: &[(usize, u32)], ops:
                         (p.verif_addr(), 0xC105E001)
                     }
                     3 => (0, 0xFA4E0003),
+                    5 => (0, 0xFA4E0005),
                     _ => {
                         if *f % 2 == 0 {
                             (rust_fake_a as usize, 0xFA4E0001)
@@ -296,6 +297,12 @@ fn run_history(out: &mut impl Write, ctx: &mut Ctx, fakes: &[(usize, u32)], ops:
                             }
                             3 => {
                                 let pair = shadow::fake!(func_type: fn() -> u32, returns: 0xFA4E0003);
+                                *fake_addr = pair.0.verif_addr();
+                                injr.when_called(FuncPtr::new(ta as *const (), SIG)).will_execute(pair)
+                            }
+                            5 => {
+                                // never called a million times: the expectation is unmet at scope exit
+                                let pair = shadow::fake!(func_type: fn() -> u32, returns: 0xFA4E0005, times: 1000000);
                                 *fake_addr = pair.0.verif_addr();
                                 injr.when_called(FuncPtr::new(ta as *const (), SIG)).will_execute(pair)
                             }
@@ -337,8 +344,11 @@ fn run_history(out: &mut impl Write, ctx: &mut Ctx, fakes: &[(usize, u32)], ops:
                     assert!(r.is_err());
                     "Dp"
                 } else {
-                    drop(i);
-                    "D"
+                    // call-count verification may raise its panic on the way out
+                    match quiet_catch(std::panic::AssertUnwindSafe(move || drop(i))) {
+                        Ok(()) => "D",
+                        Err(_) => "Dv",
+                    }
                 };
                 let evs = shim::stop_log();
                 line.push_str(&format!(
